@@ -453,10 +453,13 @@ impl Monitors {
                 let tm = self.tx.get_mut(&seq).unwrap();
                 tm.count += 1;
                 tm.last_t = e.t_us;
-                if self.episode.is_none() {
-                    if let Some(hi) = self.tx_order.last() {
-                        self.episode = Some(*hi);
-                    }
+                // the episode lasts until the cumulative ACK passes the highest sequence number sent at the
+                // moment of the (latest) retransmission - a new recovery inside an old episode extends it
+                if let Some(hi) = self.tx_order.last() {
+                    self.episode = Some(match self.episode {
+                        Some(rp) if sdist(rp, *hi) >= 0 => rp,
+                        _ => *hi,
+                    });
                 }
                 self.loss_seen = true;
                 if let Some(n) = self.after_rto.as_mut() {
@@ -785,7 +788,7 @@ impl Monitors {
                 let in_order = match w.peer_fin_idx {
                     Some(fi) => (0..fi).all(|k| w.peer_sent.contains(&k)),
                     None => true,
-                };
+                } && rec.obs_before.as_ref().map(|o| h.seq == o.last_consumed_remote_seq_nr.wrapping_add(1)).unwrap_or(true);
                 if in_order {
                     v.push(f("C07", "ack-timeliness", "ack/fin-not-acked-immediately", "a FIN arrived in order, no ACK in the same instant".to_string()));
                 } else {
@@ -1133,7 +1136,10 @@ impl Monitors {
         // R3: the peer's in-sequence FIN is acknowledged at once and answered by our own FIN
         for (h, _, _) in &rec.peer_sent {
             if h.ptype == 1 && !matches!(act, Some(Act::Deliver2(..))) {
-                let in_seq = matches!(w.peer_fin_idx, Some(fi) if fi == w.peer_in_order());
+                // in sequence for the harness AND for the endpoint (a peer that ignores the window may have had
+                // a packet refused: the FIN is then ahead of a gap as far as the endpoint is concerned)
+                let in_seq = matches!(w.peer_fin_idx, Some(fi) if fi == w.peer_in_order())
+                    && rec.obs_before.as_ref().map(|o| h.seq == o.last_consumed_remote_seq_nr.wrapping_add(1)).unwrap_or(true);
                 let ahead = matches!(w.peer_fin_idx, Some(fi) if fi > w.peer_in_order());
                 if ahead && state_before != "gone" {
                     // a FIN ahead of missing data must not take effect
